@@ -333,6 +333,15 @@ structure MErr where
   path : Text
 deriving Repr, DecidableEq
 
+/-- `difflib.OpCode` with Go's `int` fields -/
+structure OpCodeI where
+  tag : Int
+  i1 : Int
+  i2 : Int
+  j1 : Int
+  j2 : Int
+deriving Repr, DecidableEq
+
 /-! ## the match package: matcher values and the document libraries as parameters -/
 
 /-- `gjson.Result` as far as the matchers look at it -/
